@@ -1,5 +1,5 @@
 (** C07 — property theorems only. *)
-From V Require Import Base.Util Gql.Ast Peg.Peg Gen.C07_grammar_gen C07.Builder C07.Model C07.AstEq C07.Spec C07.Proofs C07.Lexical.
+From V Require Import Base.Util Gql.Ast Peg.Peg Gen.C07_grammar_gen C07.Builder C07.Model C07.AstEq C07.Spec C07.Proofs C07.Lexical C07.Strings.
 From V Require Import Peg.PegProps.
 
 Theorem C07_positions_true : forall inp file (p : pair rule),
@@ -87,3 +87,32 @@ Theorem C07_pair_text_at_position : forall inp start ps (p : pair rule) file,
   at_pos inp file (to_pos inp file p) (fun t => punct_at t (as_str inp p)) = true.
 Proof. exact pair_text_at_position. Qed.
 Print Assumptions C07_pair_text_at_position.
+
+(** string_lex: any non-empty string value, rendered in quoted form with escapes, in any surroundings
+    ([pre], [post]) and any calling context ([sk], [a]): one StringValue token over exactly the literal,
+    decoded by the builder to the value, positioned at the literal's first character *)
+Theorem C07_string_lex : forall c v pre post file sk a,
+  let val := c :: v in
+  let inp := pre ++ quote val ++ post in
+  let i := slen pre in
+  runs gql_grammar sk a (Call R_StringValue) (quote val ++ post) i
+       (Ok (post, (i + slen (quote val))%N, [string_tree val i]))
+  /\ build_string_value inp file (string_tree val i)
+     = BOk (mkPos (fst (line_col inp i)) (snd (line_col inp i)) file false, val).
+Proof. exact string_lex_nonempty. Qed.
+Print Assumptions C07_string_lex.
+
+Theorem C07_string_lex_empty : forall pre post file sk a,
+  not_quote_next post ->
+  let inp := pre ++ quote [] ++ post in
+  let i := slen pre in
+  let t := Pair R_StringValue i (i + 2)%N [Pair R_EmptyStringValue i (i + 2)%N []] in
+  runs gql_grammar sk a (Call R_StringValue) (quote [] ++ post) i (Ok (post, (i + 2)%N, [t]))
+  /\ build_string_value inp file t = BOk (mkPos (fst (line_col inp i)) (snd (line_col inp i)) file false, []).
+Proof. exact string_lex_empty. Qed.
+Print Assumptions C07_string_lex_empty.
+
+(** the rendering used above denotes that value under the specification's StringValue semantics *)
+Theorem C07_spec_reads_quote : forall v post, (v = [] -> not_quote_next post) -> string_at (quote v ++ post) = Some v.
+Proof. exact spec_reads_quote. Qed.
+Print Assumptions C07_spec_reads_quote.
